@@ -517,3 +517,16 @@ mod tests {
     );
   }
 }
+
+// ---- verification accessors (add-only, cfg(rustdds_verif)) -- gate rig (C17)
+#[cfg(rustdds_verif)]
+impl TopicCache {
+  /// Sequence numbers of all changes in the cache (any writer).
+  pub(crate) fn verif_sns(&self) -> Vec<i64> {
+    self
+      .changes
+      .values()
+      .map(|c| i64::from(c.sequence_number))
+      .collect()
+  }
+}
